@@ -101,7 +101,7 @@ def run(run):
             pts.append((math.atan2(p[1], p[0]), math.acos(max(-1.0, min(1.0, p[2])))))
     # the azimuth is an angle: a fifth of the points are given one to three whole turns away, in either direction (longitudes such as
     # -540 or +900 degrees reach find_nearest_origin unreduced)
-    pts = [((t + rng.choice([-3, -2, -2, -1, 1, 2, 3]) * 2 * math.pi, p) if rng.random() < 0.2 else (t, p)) for (t, p) in pts]
+    pts = [((t + gen.turns(rng) * 2 * math.pi, p) if rng.random() < 0.2 else (t, p)) for (t, p) in pts]
     base = len(reqs)
     for (t, p) in pts:
         reqs.append(f"find_nearest_origin {hx(t)} {hx(p)}")
@@ -188,15 +188,15 @@ def run(run):
         run.evaluations += 1
         v = cart(t, p)
         ds = sorted(((dot(v, c), i) for i, c in enumerate(centres)), reverse=True)
-        if ds[0][0] - ds[1][0] < 1e-12:
-            ties += 1
+        if ds[0][0] - ds[1][0] < 1e-12 + 8 * math.ulp(t):
+            ties += 1          # (an azimuth many turns out carries an absolute rounding error of its own: a seam tie is wider there)
             continue
         if a != f"ok {ds[0][1]}":
             run.violation(f"the face chosen is not the nearest one by great-circle distance (nearest is {ds[0][1]}, margin {ds[0][0] - ds[1][0]:.3e})", f"find_nearest_origin {hx(t)} {hx(p)}", a)
         if ds[0][0] - ds[1][0] < 1e-6:
             run.nontrivial.add((t, p))
     run.rule = ("frame read from the running library (66 pairwise dot products), base-cell centres and pole lookups, all 12 x 5 relabellings in both directions, continuity of the curve across the segments of every face (r = 2, 3, 5), and nearest-face selection "
-                "against a direct 3-D dot-product argmax on uniform points (45%), points 1e-9..1e-3 rad from the 20 dodecahedron vertices (15%) and points within 1e-12..1e-7 of a seam between two neighbouring faces (40%), a fifth of all of them with the azimuth 1..3 whole turns away in either direction; non-trivial = distinct points within 1e-6 of a seam that were decided")
+                "against a direct 3-D dot-product argmax on uniform points (45%), points 1e-9..1e-3 rad from the 20 dodecahedron vertices (15%) and points within 1e-12..1e-7 of a seam between two neighbouring faces (40%), a fifth of all of them with the azimuth 1..3, or 10..10^6, whole turns away in either direction; non-trivial = distinct points within 1e-6 of a seam that were decided")
     run.samples = [{"request": reqs[i], "impl": impl[i][:120], "model": model[i][:120]} for i in rng.sample(range(len(reqs)), 6)]
     run.extra["seam_ties_skipped"] = ties
     run.extra["points"] = len(pts)
